@@ -9,7 +9,7 @@ import (
 	"verif/busmodel"
 )
 
-var busOps = []string{"pub", "pub", "pub", "pubctx", "sub", "sub", "unsub", "unsub", "clear", "clearall", "has", "count", "wait"}
+var busOps = []string{"pub", "pub", "pub", "pubctx", "pubcancel", "sub", "sub", "unsub", "unsub", "clear", "clearall", "has", "count", "wait"}
 var persistOps = []string{"replay", "replayup", "subreplay", "regupcast", "regupcast", "regupcasttyped", "clearupcasts", "clearupcaststype", "s_append", "s_append", "s_read", "s_stream", "s_save", "s_load"}
 var stateOps = []string{"m_apply", "m_apply", "m_replay", "m_last", "c_get", "c_all", "m_register"}
 var nestedOps = []string{"pub", "pub", "sub", "unsub", "clear", "has", "count", "regupcast", "m_apply", "c_get", "s_read"}
